@@ -51,6 +51,9 @@ type connEnv struct {
 	sdL   protoreflect.ServiceDescriptor
 	fdL   protoreflect.FileDescriptor
 	backs []*backend.Backend
+	// bad exposes a service whose LAST method carries a rule that larking
+	// must refuse: its registration fails after most of the work is done
+	bad *backend.Backend
 }
 
 func newConnEnv() (*connEnv, error) {
@@ -81,12 +84,33 @@ func newConnEnv() (*connEnv, error) {
 		}
 		e.backs = append(e.backs, b)
 	}
+	fy := &vschema.File{Path: "vf/cy.proto", Pkg: "vf.cy"}
+	svcY := vschema.Service{Name: "Y"}
+	for m := 0; m < 6; m++ {
+		svcY.Methods = append(svcY.Methods, vschema.Method{Name: fmt.Sprintf("Me%d", m), In: "vf.Req", Out: "vf.Rsp", Rule: getRule(fmt.Sprintf("/cy/m%d/{a}", m))})
+	}
+	// /cx/m0/{a}/y hangs below nodes the live X routes own
+	svcY.Methods = append(svcY.Methods, vschema.Method{Name: "Deep", In: "vf.Req", Out: "vf.Rsp", Rule: getRule("/cx/m0/{a}/y")})
+	svcY.Methods = append(svcY.Methods, vschema.Method{Name: "Bad", In: "vf.Req", Out: "vf.Rsp", Rule: getRule("/cy/bad/{no_such_field}")})
+	fy.Services = []vschema.Service{svcY}
+	fdY, err := fy.Build()
+	if err != nil {
+		e.Close()
+		return nil, err
+	}
+	if e.bad, err = backend.StartDelayed("bad", true, 500*time.Microsecond, backend.Svc{SD: fdY.Services().ByName("Y"), Impl: taggedImpl{"bad"}}); err != nil {
+		e.Close()
+		return nil, err
+	}
 	return e, nil
 }
 
 func (e *connEnv) Close() {
 	for _, b := range e.backs {
 		b.Close()
+	}
+	if e.bad != nil {
+		e.bad.Close()
 	}
 }
 
@@ -133,6 +157,8 @@ var connModel = porcupine.Model{
 		return fmt.Sprintf("%+v -> %+v", input, output)
 	},
 }
+
+var refusedProbes int64
 
 var longQuery = func() string {
 	var sb strings.Builder
@@ -223,6 +249,25 @@ func runConnHistory(r *mon.Run, e *connEnv, rng *rand.Rand, readers, writers int
 					}
 					if resp.Code != 200 {
 						viol("baseline-request-failed-during-conn-registration", fmt.Sprintf("request for the local baseline method answered %d during RegisterConn/DropConn", resp.Code))
+					}
+					continue
+				}
+				if lr.Intn(5) == 0 {
+					// routes of the back-end whose registration is refused
+					// must never be visible, not even while it is being refused
+					path := []string{"/cy/m0/v", "/cy/m5/v", "/cx/m0/v/y", "/vf.cy.Y/Me0"}[lr.Intn(4)]
+					verb := "GET"
+					if strings.HasPrefix(path, "/vf.") {
+						verb = "POST"
+					}
+					resp := wire.Serve(mux, wire.BodyRequest(verb, path, "", nil, nil))
+					atomic.AddInt64(&refusedProbes, 1)
+					if resp.Panic != nil {
+						viol(resp.Panic.Key(), "request panicked: "+resp.Panic.Value)
+						return
+					}
+					if resp.Code != http.StatusNotFound {
+						viol("route-of-refused-registration-visible", fmt.Sprintf("%s %s answered %d although the only registration that declares it was refused (body %.80q)", verb, path, resp.Code, resp.Body))
 					}
 					continue
 				}
@@ -329,12 +374,39 @@ func runConnHistory(r *mon.Run, e *connEnv, rng *rand.Rand, readers, writers int
 			}
 		}(w)
 	}
+	// a writer whose registrations are all refused (late, see connEnv.bad)
+	ww.Add(1)
+	badSeed, localSeed := rng.Int63(), rng.Int63()
+	go func() {
+		defer ww.Done()
+		lr := rand.New(rand.NewSource(badSeed))
+		for i := 0; i < 3; i++ {
+			time.Sleep(time.Duration(200+lr.Intn(3000)) * time.Microsecond)
+			ctx, cancel := context.WithTimeout(context.Background(), 20*time.Second)
+			var rerr error
+			pi := mon.Catch(func() { rerr = mux.RegisterConn(ctx, e.bad.CC) })
+			cancel()
+			if pi != nil {
+				viol(pi.Key(), "RegisterConn (back-end with an invalid last rule) panicked: "+pi.Value)
+				return
+			}
+			smu.Lock()
+			script = append(script, fmt.Sprintf("wb:RegConn(bad)=%v", rerr != nil))
+			smu.Unlock()
+			if rerr == nil {
+				viol("invalid-backend-accepted", "RegisterConn of a back-end whose last method has a rule with an unknown field returned nil")
+				return
+			}
+			r.Count("refused_conn_registrations", 1)
+			capture("RegConn(bad) refused")
+		}
+	}()
 	// third writer: local registrations interleaved with the conn writers
 	var extraOK [nExtra]bool
 	ww.Add(1)
 	go func() {
 		defer ww.Done()
-		lr := rand.New(rand.NewSource(rng.Int63()))
+		lr := rand.New(rand.NewSource(localSeed))
 		for i := 0; i < nExtra; i++ {
 			time.Sleep(time.Duration(500+lr.Intn(4000)) * time.Microsecond)
 			sd := fdX.Services().Get(i)
@@ -358,6 +430,24 @@ func runConnHistory(r *mon.Run, e *connEnv, rng *rand.Rand, readers, writers int
 	atomic.StoreInt32(&stop, 1)
 	wg.Wait()
 
+	r.Count("probes_of_refused_routes", int(atomic.SwapInt64(&refusedProbes, 0)))
+	{
+		var was bool
+		ctx, cancel := context.WithTimeout(context.Background(), 20*time.Second)
+		pi := mon.Catch(func() { was = mux.DropConn(ctx, e.bad.CC) })
+		cancel()
+		if pi != nil {
+			viol(pi.Key(), "DropConn of a never-registered connection panicked: "+pi.Value)
+		} else if was {
+			viol("refused-connection-recorded", "DropConn reports that the connection whose registrations were all refused was registered")
+		}
+		for _, path := range []string{"/cy/m0/v", "/cy/m5/v", "/cx/m0/v/y"} {
+			if resp := wire.Serve(mux, wire.BodyRequest("GET", path, "", nil, nil)); resp.Code != http.StatusNotFound {
+				viol("route-of-refused-registration-visible", fmt.Sprintf("GET %s answers %d after the run although its only registration was refused", path, resp.Code))
+				break
+			}
+		}
+	}
 	// no successful registration may be lost
 	for i := 0; i < nExtra; i++ {
 		if !extraOK[i] {
